@@ -84,11 +84,22 @@ def make_problem(S, shape):
         tref_in = units.Time(core.real("t_ref_in"))
     data = st.data.RVData(symnp.SymArray(symnp._obj(t), symnp._F8), units.Quantity(symnp.SymArray(symnp._obj(y), symnp._F8), dunit),
                           units.Quantity(symnp.SymArray(symnp._obj(err), symnp._F8), dunit), t_ref=False if shape.get("tref") == "false" else tref_in)
-    # survey ids (sorted data: first nt-noff... simple deterministic assignment: epoch i belongs to survey i % (noff+1))
+    # through the public entry: validate_prepare_data (what TheJoker._make_joker_helper calls before building the helper).
+    # Multi-survey input: epoch i belongs to survey survey_of(i) (consecutive blocks in time), given as a list of RVData.
     ids = None
     if noff:
-        ids = symnp.SymArray(symnp._obj([survey_of(i, nt, noff) for i in range(nt)]), symnp._I8)
-    trend_M = st.likelihood_helpers.get_trend_design_matrix(data, ids, npoly)
+        srcs = []
+        for k in range(noff + 1):
+            sel = [i for i in range(nt) if survey_of(i, nt, noff) == k]
+            srcs.append(st.data.RVData(symnp.SymArray(symnp._obj([t[i] for i in sel]), symnp._F8),
+                                       units.Quantity(symnp.SymArray(symnp._obj([y[i] for i in sel]), symnp._F8), dunit),
+                                       units.Quantity(symnp.SymArray(symnp._obj([err[i] for i in sel]), symnp._F8), dunit)))
+        symnp.DEFAULT_SORT_STABLE = True
+        data, ids, trend_M = st.data_helpers.validate_prepare_data(srcs, npoly, noff)
+        if not isinstance(ids, symnp.SymArray):
+            ids = symnp.SymArray(symnp._obj(list(ids)), symnp._I8)
+    else:
+        data, _ids0, trend_M = st.data_helpers.validate_prepare_data(data, npoly, 0)
     # prior
     names_lin = ["K"] + ["v%d" % j for j in range(npoly)]
     off_names = ["dv0_%d" % k for k in range(1, noff + 1)]
@@ -138,7 +149,15 @@ def make_problem(S, shape):
         v0_offsets=[model[n] for n in off_names], _v_trend_names=["v%d" % j for j in range(npoly)], poly_trend=npoly, n_offsets=noff,
         par_names=["P", "e", "omega", "M0", "s"] + names_lin + off_names, model=model, pars=dict(model, P=Ppar),
         _linear_equiv_units=lin_units)
-    return {"t": t, "y": y, "err": err, "data": data, "dunit": dunit, "trend_M": trend_M, "prior": prior, "pri": pri, "P_unit": P_unit,
+    # the epoch the property prescribes (independent of what the code stored): the user's explicit t_ref for a single source,
+    # 0 when disabled, otherwise the earliest time (t is assumed increasing) -- merged multi-survey data always use the earliest
+    if noff or shape.get("tref") not in ("explicit", "false"):
+        tref_spec = core.sym_min(list(t)) if nt > 1 else t[0]
+    elif shape.get("tref") == "false":
+        tref_spec = 0
+    else:
+        tref_spec = tref_in.tcb._v
+    return {"tref_spec": tref_spec, "t": t, "y": y, "err": err, "data": data, "dunit": dunit, "trend_M": trend_M, "prior": prior, "pri": pri, "P_unit": P_unit,
             "names_lin": names_lin, "off_names": off_names, "ids": ids, "tref_in": tref_in, "history": shape.get("history"), "shape": shape}
 
 
